@@ -65,8 +65,14 @@ class InfoFilePersister:
                 yield Succeeded(TrashedFile(trashinfo_path),
                                 ".trashinfo created as %s." % trashinfo_path)
             except OSError as e:
-                if e.errno == errno.ENAMETOOLONG:
+                if e.errno == errno.ENAMETOOLONG and not name_too_long:
                     name_too_long = True
+                elif e.errno not in (None, errno.EEXIST):
+                    # another name cannot help against a read-only or full
+                    # file system, a permission problem, an I/O error ...:
+                    # give up on this trash directory instead of trying new
+                    # suffixes forever
+                    raise
                 yield NeedsMoreAttempts(trashinfo_path,
                                         "attempt for creating %s failed." % trashinfo_path)
 
